@@ -512,6 +512,7 @@ def step (s : St) (line : String) : IO St := do
       let bad := hasDup ins || hasDup outs
         || kst.any (fun p => s.prev.p.any (fun e => e.key == p.1 && e.out.isSome))
         || kst.any (fun p => s.prev.k.any (fun q => q.1 == p.2))
+        || kst.any (fun p => s.prev.k.any (fun q => q.2 == p.1))
       if bad then s := undiscipline s
       if kst.any (fun p => s.prev.o.any (fun e => e.key == p.2)) then
         s ← monitor s "open-dup" "a keystone was accepted for an out key that is already open"
